@@ -97,10 +97,20 @@ def classify_callee(path):
 
 
 def is_len_of(e, recv):
-    """e is remaining()/len() of the same buffer expression recv (after stripping refs/casts)."""
+    """e is remaining()/len() of the same buffer expression recv (after stripping refs/casts),
+    or the length of recv.chunk() (a lower bound of remaining() by Buf's contract)."""
     e = strip_casts(e)
+    if e[0] == 'un' and e[1] == 'PtrMetadata':
+        inner = strip_refs(e[2])
+        if inner[0] == 'call' and inner[1].endswith('::chunk') and inner[2]:
+            return nosite(strip_refs(inner[2][0])) == nosite(strip_refs(recv))
+        return False
     if e[0] != 'call':
         return False
+    if re.search(r'::len$', e[1]) and e[2]:
+        inner = strip_refs(e[2][0])
+        if inner[0] == 'call' and inner[1].endswith('::chunk') and inner[2]:
+            return nosite(strip_refs(inner[2][0])) == nosite(strip_refs(recv))
     name = e[1]
     if not re.search(r'(::remaining|::len)$', name):
         return False
@@ -134,9 +144,24 @@ def same_value(a, b):
 
 def guard_for_len(body, site_bb, n_expr, recv_expr):
     """is `n_expr <= len(recv)` known at site_bb through a dominating comparison?"""
+    if is_len_of(n_expr, recv_expr) and strip_casts(n_expr)[0] == 'call' and strip_casts(n_expr)[3] == site_bb - 0:
+        pass
+    if is_len_of(n_expr, recv_expr):
+        # the amount *is* the remaining length, computed in the block that makes the call or a
+        # dominating one with no intervening mutation
+        ne = strip_casts(n_expr)
+        nb = ne[3] if ne[0] == 'call' else None
+        if nb is not None and body.dominates(nb, site_bb):
+            succ = body.succs(nb)
+            start = succ[0] if succ else site_bb
+            if nb == site_bb or not mutated_between(body, start, site_bb, recv_expr):
+                return ('Eq', n_expr, n_expr, nb)
     for op, a, b, sbb, tb in body.comparisons_at(site_bb):
         if b is None:
             continue
+        if n_expr == ('const', 1) and ((op == 'Ne' and is_len_of(a, recv_expr) and b == ('const', 0)) or (op == 'Gt' and is_len_of(a, recv_expr) and b[0] == 'const' and b[1] >= 0)):
+            if not mutated_between(body, tb, site_bb, recv_expr):
+                return (op, a, b, sbb)
         # n <= len   |  n < len   |  len >= n  |  len > n  | n == len
         if op in ('Le', 'Lt', 'Eq') and is_len_of(b, recv_expr) and value_le(n_expr, a):
             if not mutated_between(body, tb, site_bb, recv_expr):
@@ -316,6 +341,10 @@ def discharge(site):
                 site.status = 'const'
                 site.reason = 'constant size %s' % show(n)
                 return True
+            if _sum_of_lens(n):
+                site.status = 'guarded'
+                site.reason = 'size is the length of data already held: %s' % show(n)
+                return True
             # size bounded by remaining input through a dominating comparison
             for op, a, b, sbb, tb in body.comparisons_at(site.bb):
                 if b is None:
@@ -338,6 +367,17 @@ def _is_slice_len(e, dst):
         return nosite(strip_refs(e[2][0])) == nosite(dst)
     if e[0] == 'un' and e[1] == 'PtrMetadata':
         return nosite(strip_refs(e[2])) == nosite(dst)
+    return False
+
+
+def _sum_of_lens(e):
+    e = strip_casts(e)
+    if e[0] == 'const' or _is_any_len(e):
+        return True
+    if e[0] == 'field' and e[2] == '0' and e[1][0] == 'bin' and e[1][1] == 'AddWithOverflow':
+        e = e[1]
+    if e[0] == 'bin' and e[1] in ('Add', 'AddWithOverflow'):
+        return _sum_of_lens(e[2]) and _sum_of_lens(e[3])
     return False
 
 
@@ -391,15 +431,17 @@ def auto_discharge_assert(site):
     body = site.body
     t = body.bbs[site.bb]['t']
     msg = t['msg']
-    if msg.startswith('Overflow'):
+    if msg.startswith('Overflow') and 'a' in t:
         a = body.expr_op(t['a'])
         b = body.expr_op(t['b'])
         op = msg[9:-1]
         if strip_casts(a)[0] == 'const' and strip_casts(b)[0] == 'const':
             return 'A1: both operands constant (decided at compile time)'
-        if op in ('Shl', 'Shr') and b[0] == 'const' and 0 <= b[1] < 8:
-            return 'A2: constant shift amount %d is below every integer width' % b[1]
         ty = _op_type(body, t['a']) or _op_type(body, t['b'])
+        if op in ('Shl', 'Shr') and b[0] == 'const':
+            w = {'u8': 8, 'i8': 8, 'u16': 16, 'i16': 16, 'u32': 32, 'i32': 32, 'u64': 64, 'i64': 64, 'usize': 64, 'isize': 64, 'u128': 128, 'i128': 128}.get(_op_type(body, t['a']), 8)
+            if 0 <= b[1] < w:
+                return 'A2: constant shift amount %d is below the operand width %d' % (b[1], w)
         if op in ('Add', 'Mul') and ty in ('usize', 'u64'):
             ra, rb = bounded(body, site.bb, a, op), bounded(body, site.bb, b, op)
             if ra and rb:
@@ -408,6 +450,10 @@ def auto_discharge_assert(site):
             for cop, ca, cb, sbb, tb in body.comparisons_at(site.bb):
                 if cb is None:
                     continue
+                if ca[0] == 'cast' and ca[1] == 'IntToInt' and ca[2] in ('u64', 'usize') and nosite(ca[3]) == nosite(a):
+                    ca = ca[3]
+                if cb[0] == 'cast' and cb[1] == 'IntToInt' and cb[2] in ('u64', 'usize') and nosite(cb[3]) == nosite(a):
+                    cb = cb[3]
                 if cop in ('Ge', 'Gt') and nosite(ca) == nosite(a) and value_le(b, cb):
                     return 'A4: dominating comparison %s %s %s' % (show(ca), cop, show(cb))
                 if cop == 'Gt' and nosite(ca) == nosite(a) and cb[0] == 'const' and b[0] == 'const' and b[1] <= cb[1] + 1:
@@ -430,6 +476,28 @@ def auto_discharge_assert(site):
         ln = body.expr_op(t['len'])
         if idx[0] == 'const' and ln[0] == 'const' and idx[1] < ln[1]:
             return 'A1: constant index below constant length'
+        # s[0] / s[len-1] under len(s) != 0
+        l3 = strip_casts(ln)
+        if l3[0] == 'un' and l3[1] == 'PtrMetadata':
+            sl = nosite(strip_refs(l3[2]))
+            nonempty = False
+            for cop, ca, cb, sbb, tb in body.comparisons_at(site.bb):
+                if cb is None:
+                    continue
+                cas = strip_casts(ca)
+                if cas[0] == 'call' and cas[1].endswith('::len') and cas[2] and nosite(strip_refs(cas[2][0])) == sl:
+                    if (cop == 'Ne' and cb == ('const', 0)) or (cop == 'Gt' and cb[0] == 'const' and cb[1] >= 0) or (cop == 'Ge' and cb[0] == 'const' and cb[1] >= 1):
+                        nonempty = True
+            if nonempty:
+                if idx == ('const', 0):
+                    return 'A6: index 0 under len != 0'
+                i2 = idx
+                if i2[0] == 'field' and i2[2] == '0' and i2[1][0] == 'bin' and i2[1][1] == 'SubWithOverflow':
+                    i2 = i2[1]
+                if i2[0] == 'bin' and i2[1] in ('Sub', 'SubWithOverflow') and i2[3] == ('const', 1):
+                    la = strip_casts(i2[2])
+                    if la[0] == 'call' and la[1].endswith('::len') and la[2] and nosite(strip_refs(la[2][0])) == sl:
+                        return 'A6: index len-1 under len != 0'
         # chunk()[k] after remaining() >= k+1 (Buf contract: chunk is non-empty while remaining > 0)
         l2 = strip_casts(ln)
         if idx == ('const', 0) and l2[0] == 'un' and l2[1] == 'PtrMetadata':
